@@ -50,6 +50,7 @@ type FuncContract struct {
 	LoopMod   map[int][]SExpr
 	CallAsserts []*Clause
 	CallForget  []ForgetSpec
+	AllocCounter bool // allocation represented as a counter (scalar monotonicity) instead of a set
 	Inline    bool // expand body at call sites instead of using the contract
 	Safe      bool // generate panic-freedom obligations
 	Trusted   bool // contract is assumed; body not verified (listed)
@@ -120,7 +121,7 @@ func splitLabel(s string) (string, string) {
 }
 
 var clauseKeywords = map[string]bool{
-	"preserves": true, "rmul-signs": true, "let": true, "owns": true, "tracks": true, "dynbind": true, "ghost-effect": true, "func": true, "property": true, "requires": true, "ensures": true, "modifies": true,
+	"preserves": true, "alloc-counter": true, "rmul-signs": true, "let": true, "owns": true, "tracks": true, "dynbind": true, "ghost-effect": true, "func": true, "property": true, "requires": true, "ensures": true, "modifies": true,
 	"loop": true, "at": true, "inline": true, "safe": true, "trusted": true, "noframe": true,
 	"inloop": true, "holds": true, "pure": true, "ghost": true, "spec": true, "axiom": true,
 	"iface": true, "monitor": true, "confined": true, "lemma": true, "dynpure": true, "note": true,
@@ -402,6 +403,8 @@ func (cs *Contracts) parseFile(file, pkg string) error {
 				cur.Notes = append(cur.Notes, fmt.Sprintf("ASSUMED at call %s in %s (not checked): %s", f[1], cur.Name, c.Text))
 			}
 			cur.CallAsserts = append(cur.CallAsserts, c)
+		case "alloc-counter":
+			cur.AllocCounter = true
 		case "inline":
 			cur.Inline = true
 		case "safe":
